@@ -35,6 +35,11 @@ def c13_binop_total(vals):
     return {"op": op, "a": a, "b": b, "replay_args": ["expr", "bin", op, a, b]}
 
 
+def codepage_wiring(vals):
+    cid = _i32(vals[0])
+    return {"codepage_id": cid, "replay_args": ["codepage", str(cid)]}
+
+
 def decode(harness, vals):
     f = globals().get(harness)
     if f is None:
